@@ -161,6 +161,11 @@ def run(replay=None):
         rc, out = vlib.run_hx(hx, ["c07", "-seed", str(ck.seed), "-tier", ck.tier, "-n", str(n), "-extra", "from:%d" % start, "-out", obs], timeout=3000)
         part = load_histories(obs) if os.path.exists(obs) else {}
         hist.update(part)
+        for w in [r for r in (vlib.read_jsonl(obs) if os.path.exists(obs) else []) if r.get("kind") == "wide"]:
+            ck.notes["wide_method"] = {k: v for k, v in w.items() if k != "kind"}
+            if w.get("panic") or w.get("seen") != "[1 2 3 4 5 6 7 8 9 10 11]" or w.get("ret") != 1012 or w.get("when_ret") != 77:
+                ck.impl_violation("arguments-altered:wide-method", "an interface method with 11 integer arguments: the replacement sees %s and returns %s, the conditional stub returns %s %s" % (
+                    w.get("seen"), w.get("ret"), w.get("when_ret"), w.get("panic") or ""), w)
         if rc == 0:
             break
         crashes += 1
